@@ -24,6 +24,14 @@ def program(chk: Check) -> Program:
 def rule_records(chk: Check) -> List[dict]:
     recs = analyse_rules(str(REPO), chk.tier)
     chk.analysed["rule_paths"] = len(recs)
+    over = [r for r in recs if r["outcome"] == "budget"]
+    if over:
+        # not every case of these rules was explored: whatever the explored paths show is reported, the rest is undecided
+        chk.rule(f"{chk.pid}.B0", "the case exploration of every rule finished within its budget", minimum=0)
+        for r in over:
+            chk.undecided(f"{chk.pid}.B0", f"{chk.pid}.B0:{r['rule']}:budget", f"{r['rule']}[{opts_str(r['opts'])}]", r["note"],
+                          RULE_FILES.get(r["rule"], ""))
+        recs = [r for r in recs if r["outcome"] != "budget"]
     return recs
 
 
